@@ -67,10 +67,11 @@ def register(reg):
         HIST + '.flush', params={},
         requires=[('a-flush', '0 <= self.flush_count and self.flush_count < 65535'),
                   ('hashX-length', 'forall(lambda x=Bytes: implies(x in self.unflushed, len(x) == 11))')],
-        raises={}, modifies=['self.db.g_map', 'self.flush_count', 'self.unflushed', 'self.unflushed_count'],
+        raises={}, modifies=['self.db.g_map', 'self.db.g_commits', 'self.flush_count', 'self.unflushed', 'self.unflushed_count'],
         assumes_inv=False, maintains_inv=False,
         ensures=[
             ('count', 'self.flush_count == old(self.flush_count) + 1'),
+            ('one-atomic-commit', 'self.db.g_commits == old(self.db.g_commits) + 1'),
             ('cache-emptied', 'forall(lambda x=Bytes: x not in self.unflushed)'),
             ('rows-written', 'forall(lambda x=Bytes: implies(x in old(self.unflushed), '
                              'let(lambda k=concat(x, beu_enc(self.flush_count, 2)): k in self.db.g_map and '
